@@ -426,7 +426,10 @@ def oracle_c02(sim, case):
         if not reference:
             continue  # not composable with any worker (restrictions exclude it)
         executed = [s for s in starts if pattern.search(s["name"])]
-        if not executed:
+        # a selected test that itself produces states and found all of them present is reused, not executed (C03)
+        reused = [e for e in sim.events if e["kind"] == "door" and e["action"] == "check" and e.get("all_present")
+                  and pattern.search(e.get("name") or "")]
+        if not executed and not reused:
             yield Violation({"oracle": "selected-test-not-executed"},
                             f"{selected} was never executed (nodes: {[n.params['shortname'] for n in matching][:4]})\n" + brief(sim), case)
     for node in nodes:
